@@ -16,6 +16,8 @@ sys.path.insert(0, os.path.dirname(os.path.dirname(os.path.abspath(__file__))))
 sys.path.insert(0, os.path.dirname(os.path.abspath(__file__)))
 import vlib
 from vlib import VI, VB, VL
+
+sys.set_int_max_str_digits(0)
 import regen_c08
 import c08_oracle as O
 
@@ -24,7 +26,8 @@ THEOREMS = ["der_roundtrip", "raw_roundtrip", "raw_der_raw", "der_raw_der", "raw
             "sniff_sound_refuted", "sniff_refuted_classes", "sniff_sound_except_known", "sniff_sound_typical",
             "get_signature_normalises", "get_signature_rsa_unchanged", "get_signature_refuted",
             "verify_reencode_sound_except_known", "verify_reencode_refuted",
-            "rsa_raw_key_roundtrip", "ecc_raw_key_roundtrip", "pub_parse_raw_keys", "pub_parse_pem_like_masks"]
+            "rsa_raw_key_roundtrip", "ecc_raw_key_roundtrip", "pub_parse_raw_keys", "pub_parse_pem_like_masks",
+            "sniff_der_exact", "cli_raw_roundtrip", "cli_raw_p521_refuted"]
 WORKDIR = os.path.join(vlib.WORK, "C08")
 SCRATCH = os.path.join(WORKDIR, "run")
 KEYCACHE = os.path.join(WORKDIR, "keycache")
@@ -35,7 +38,8 @@ FN = {1: "encode_dss_signature", 2: "decode_dss_signature", 3: "ECDSASignature.g
       5: "ECDSASignature.parse", 6: "ECDSASignature.export", 7: "ECDSASignature.parse-export", 8: "serialize_signature",
       10: "SignatureProvider.get_signature", 11: "PublicKeyRsa.export(NXP)", 12: "PublicKeyRsa.recreate_public_numbers",
       13: "PublicKeyEcc.export(NXP)", 14: "PublicKeyEcc.recreate_from_data", 15: "PublicKey.parse", 16: "PublicKeyEcc.parse",
-      17: "PublicKeyRsa.parse", 18: "SPSDKEncoding.get_file_encodings"}
+      17: "PublicKeyRsa.parse", 18: "SPSDKEncoding.get_file_encodings", 20: "nxpcrypto key convert -e RAW (public)",
+      21: "nxpcrypto key convert -e RAW (private)", 22: "nxpcrypto key convert <raw file> (reconstruct_key)"}
 
 
 # ------------------------------------------------------------------------------------------ helpers
@@ -114,7 +118,7 @@ def gen_model_cases(tier, rng):
             lens = sorted(set([1, 2, 3, c // 2] + list(range(c - 5, amax + 1))))
         pairs = [(a, b) for a in lens for b in lens]
         if not full:
-            pairs += [(rng.randint(1, amax), rng.randint(1, amax)) for _ in range(150)]
+            pairs += [(rng.randint(1, amax), rng.randint(1, amax)) for _ in range(80)]
         for (a, b) in pairs:
             r, s = int_with_content_len(rng, a, n), int_with_content_len(rng, b, n)
             if r is None or s is None:
@@ -124,7 +128,7 @@ def gen_model_cases(tier, rng):
             CURVE_OF_SIG.setdefault(der, cv)
             sigs_by_len.setdefault(len(der), der)
             a1.append([10, VB(der), VI(-1)])
-            if (a + b) % 3 == 0 or not full:
+            if (a + b) % (3 if thorough else 5) == 0 or (not full and (a + b) % 2 == 0):
                 a1.append([7, VI(r), VI(s), VI(cv), VI(0)])
                 a1.append([8, VB(der), VI(c)])
                 a1.append([1, VI(r), VI(s)])
@@ -140,7 +144,7 @@ def gen_model_cases(tier, rng):
     S["ECDSA (r, s) over DER content-length classes: parse(export), get_signature, serialize_signature"] = (a1, True)
     # --- A2: sniffing by length
     a2 = [[4, VI(L)] for L in range(-3, 700 if thorough else 420)]
-    for L in range(0, 300 if thorough else 200):
+    for L in range(0, 300 if thorough else 150):
         a2.append([3, VB(bytes(L))])
         a2.append([5, VB(bytes([rng.getrandbits(8) for _ in range(L)]))])
         a2.append([10, VB(bytes([0x30] + [rng.getrandbits(8) for _ in range(max(L - 1, 0))])), VI(-1)])
@@ -172,7 +176,7 @@ def gen_model_cases(tier, rng):
         seeds.append(bytes.fromhex(h))
     for sd in seeds:
         a3.append(sd)
-        for _ in range(40 if thorough else 12):
+        for _ in range(40 if thorough else 8):
             m = bytearray(sd)
             k = rng.randrange(7)
             if k == 0 and m:
@@ -285,7 +289,46 @@ def gen_model_cases(tier, rng):
     for _ in range(100 if thorough else 40):
         a6.append(bytes(rng.getrandbits(8) for _ in range(rng.randrange(0, 12))))
     S["SPSDKEncoding.get_file_encodings on UTF-8 boundary cases with and without the PEM marker"] = ([[18, VB(d)] for d in a6], False)
+    # --- A7: nxpcrypto key convert -e RAW and back (through the command line)
+    a7 = []
+    for cv, (x, y) in pts:
+        ks = O.CURVES[cv]["bits"]
+        a7.append([20, VI(x), VI(y), VI(ks)])
+        for w in sorted({ks // 8, (ks + 7) // 8}):
+            if x < 1 << (8 * w) and y < 1 << (8 * w):
+                a7.append([22, VB(x.to_bytes(w, "big") + y.to_bytes(w, "big")), None, None, None])
+    for cv in range(3):
+        c = O.CURVES[cv]
+        for d in [1, 5, c["n"] - 1, 1 << (c["bits"] - 1), rng.randrange(1, c["n"]), rng.randrange(1, c["n"])]:
+            a7.append([21, VI(d), VI(c["bits"])])
+            for w in sorted({c["bits"] // 8, (c["bits"] + 7) // 8}):
+                if d < 1 << (8 * w):
+                    a7.append([22, VB(d.to_bytes(w, "big")), None, None, None])
+        a7.append([22, VB(bytes(CSIZE[cv])), None, None, None])
+        a7.append([22, VB(c["n"].to_bytes(CSIZE[cv], "big")), None, None, None])
+    for L in (0, 1, 31, 33, 47, 49, 63, 65, 67, 95, 97, 130, 131, 133):
+        a7.append([22, VB(bytes(rng.getrandbits(8) for _ in range(L))), None, None, None])
+    S["nxpcrypto key convert -e RAW / reading raw key files back (reconstruct_key), all three curves"] = (a7, False)
     return S
+
+
+def big_out(v):
+    """harness value -> model argument: integers of 2^63 and above travel as VStr (big-endian magnitude bytes)"""
+    t, x = v
+    if t == "i" and x >= 1 << 63:
+        return ("s", x.to_bytes((x.bit_length() + 7) // 8, "big").decode("latin-1"))
+    if t == "l":
+        return ("l", [big_out(y) for y in x])
+    return v
+
+
+def big_in(v):
+    t, x = v
+    if t == "s":
+        return ("i", int.from_bytes(x.encode("latin-1"), "big"))
+    if t == "l":
+        return ("l", [big_in(y) for y in x])
+    return v
 
 
 def model_expr(case, bb):
@@ -293,9 +336,9 @@ def model_expr(case, bb):
     args = list(case[1:])
     if fn == 14:
         args[2] = bb["der"] if bb else VL([])
-    if fn in (15, 16, 17):
+    if fn in (15, 16, 17, 22):
         args[1], args[2], args[3] = bb["pem"], bb["der"], VI(bb["rsa_valid"])
-    return f"run_case {fn} [{'; '.join(vlib.coq_lit(a) for a in args)}]"
+    return f"run_case {fn} [{'; '.join(vlib.coq_lit(big_out(a)) for a in args)}]"
 
 
 def der_len_class(cv, L):
@@ -373,6 +416,34 @@ def oracle_model_case(case, res):
                         return (f"PublicKeyEcc.recreate_from_data:{CNAME[cv]}:valid-point-lost", f"{data.hex()} -> {res}")
                 elif ok and not O.on_curve(c, x % c["p"], y % c["p"]):
                     return (f"PublicKeyEcc.recreate_from_data:{CNAME[cv]}:accepts-off-curve", f"{data.hex()} -> {res}")
+    elif fn == 20:
+        x, y, ks = a
+        sz = (ks + 7) // 8
+        if not ok or res[1] != x.to_bytes(sz, "big") + y.to_bytes(sz, "big"):
+            cv = [256, 384, 521].index(ks)
+            return (f"nxpcrypto-key-convert:{CNAME[cv]}:RAW:public:{'failed' if not ok else 'wrong-content'}",
+                    f"nxpcrypto key convert -e RAW of the {CNAME[cv]} public key ({x:#x}, {y:#x}) -> "
+                    + (f"{len(res[1])} bytes" if ok else f"error kind {res[1]}"))
+    elif fn == 21:
+        d, ks = a
+        sz = (ks + 7) // 8
+        if not ok or res[1] != d.to_bytes(sz, "big"):
+            cv = [256, 384, 521].index(ks)
+            return (f"nxpcrypto-key-convert:{CNAME[cv]}:RAW:private:{'failed' if not ok else 'wrong-content'}",
+                    f"nxpcrypto key convert -e RAW of the {CNAME[cv]} private key d={d:#x} -> "
+                    + (f"{len(res[1])} bytes" if ok else f"error kind {res[1]}"))
+    elif fn == 22:
+        data = a[0]
+        for cv in range(3):
+            c = O.CURVES[cv]
+            if len(data) == 2 * CSIZE[cv]:
+                x, y = int.from_bytes(data[:CSIZE[cv]], "big"), int.from_bytes(data[CSIZE[cv]:], "big")
+                if O.on_curve(c, x, y) and res != VL([VI(0), VI(cv), VI(x), VI(y)]):
+                    return (f"nxpcrypto-key-convert:{CNAME[cv]}:RAW:public:not-readable-back", f"raw public key file {data.hex()} -> {res}")
+            if len(data) == CSIZE[cv]:
+                d = int.from_bytes(data, "big")
+                if 1 <= d < c["n"] and res != VL([VI(2), VI(cv), VI(d)]):
+                    return (f"nxpcrypto-key-convert:{CNAME[cv]}:RAW:private:not-readable-back", f"raw private key file {data.hex()} -> {res}")
     elif fn in (15, 16, 17):
         data = a[0]
         for cv in range(3):
@@ -851,6 +922,70 @@ def recovered_stream(rep, tier, rng, impl):
     return n
 
 
+def cert_stream(rep, tier, rng, impl, keyspecs):
+    """self-signed certificates (spsdk.crypto.certificate): the key read back from a certificate in every encoding is the
+    key it was made for, and its signature verifies under that key according to the independent implementation."""
+    ops = []
+    plan = []
+    for kid, kind, nums, lop, note in keyspecs:
+        l2 = dict(lop)
+        l2["id"] = kid
+        ops.append(l2)
+        plan.append(None)
+        for pss in ((None, True) if kind == "rsa" and (tier == "thorough" or nums[1].bit_length() == 2048) else (None,)):
+            ops.append({"op": "cert", "id": kid, "serial": rng.randrange(1, 1 << 64), "pss": pss, "timeout": 60})
+            plan.append((kid, kind, nums, pss))
+    res = impl.run(ops)
+    n = 0
+    for pl, r in zip(plan, res):
+        if pl is None:
+            continue
+        kid, kind, nums, pss = pl
+        pubnums = (["ecc", nums[1], None, nums[3], nums[4]] if kind == "ecc" else ["rsa", nums[1], nums[2], None, None, None])
+        tag = f"{CNAME[nums[1]] if kind == 'ecc' else 'rsa'}{':pss' if pss else ''}"
+        key_d = {"type": CNAME[nums[1]], "d": hex(nums[2])} if kind == "ecc" else {"type": "rsa", "n": hex(nums[1])}
+        if r[0] != "ok":
+            rep.failing(f"certificate:{tag}:failed", f"generate/export/parse of a self-signed certificate failed: {r}", {"kind": "certificate", "key": key_d})
+            continue
+        for encn, o in r[1].items():
+            n += 1
+            blob = bytes.fromhex(o["blob"])
+            replay = {"kind": "certificate", "key": key_d, "encoding": encn, "certificate": o["blob"], "pss": pss}
+            try:
+                der = O.unpem(blob)[1] if encn == "PEM" else blob
+                t, body, end = O.read_tlv(der, 0)
+                assert t == 0x30 and all(b == 0 for b in der[end:]) and (encn == "NXP" or end == len(der))
+                t1, tbs_c, e1 = O.read_tlv(body, 0)
+                tbs_raw = body[:e1]
+                t2, alg, e2 = O.read_tlv(body, e1)
+                t3, bits, e3 = O.read_tlv(body, e2)
+                assert t1 == 0x30 and t3 == 3 and bits[0] == 0 and e3 == len(body)
+                ch = O.read_seq(tbs_c)
+                spki = ch[6 if ch[0][0] == 0xA0 else 5]
+                inside = O.parse_spki(O.tlv(spki[0], spki[1]))
+                if kind == "rsa":
+                    inside = inside[:3] + [None, None, None]
+                sig = bits[1:]
+            except Exception as ex:  # noqa
+                rep.failing(f"certificate:{tag}:{encn}:undecodable", f"exported certificate is not a DER certificate: {ex!r}", replay)
+                continue
+            got = o["key"][:2] + [None] + o["key"][3:] if o["key"][0] == "ecc" else o["key"]
+            gote = o["extract"][:2] + [None] + o["extract"][3:] if o["extract"][0] == "ecc" else o["extract"]
+            if inside != pubnums or got != pubnums or gote != pubnums or o["eq_key"] is not True:
+                rep.failing(f"certificate:{tag}:{encn}:different-key", "the public key read back from the certificate is not the key it was issued for", replay)
+            kw = {"algorithm": "sha256", "der_format": kind == "ecc", "pss_padding": bool(pss)}
+            good = indep_verify(pubnums, tbs_raw, sig, kw)
+            if not good:
+                rep.failing(f"certificate:{tag}:{encn}:signature-rejected-by-independent-verifier", "certificate signature does not verify", replay)
+            if o["validate"] is not True:
+                if kind == "ecc" and len(sig) == 2 * CSIZE[nums[1]] and good:
+                    rep.failing(f"verify_signature(DER):{CNAME[nums[1]]}:L={len(sig)}", "Certificate.validate rejects a valid certificate whose DER "
+                                f"signature has {len(sig)} bytes", replay)
+                else:
+                    rep.failing(f"certificate:{tag}:{encn}:validate-false", "Certificate.validate(self-signed) returned False", replay)
+    return n
+
+
 def cli_stream(rep, tier, rng, impl, keyspecs, exports):
     """nxpcrypto key convert / signature create / signature verify on real keys."""
     ops, chks = [], []
@@ -956,6 +1091,10 @@ def run(tier):
     os.makedirs(SCRATCH, exist_ok=True)
     try:
         return _run(rep, tier, rng)
+    except Exception:  # noqa  -- an internal failure is a check that did not complete, never a silent pass
+        import traceback
+        rep.obligation("check:completed", False, traceback.format_exc())
+        return rep.finish(rule="check aborted by an internal error", trusted_base=[], checker_cmd="", assumptions=[])
     finally:
         shutil.rmtree(SCRATCH, ignore_errors=True)
 
@@ -970,13 +1109,23 @@ def _run(rep, tier, rng):
     # (T1) regenerate tables and constants from the current source
     try:
         regen_c08.regen()
-        rep.obligation("translate:spsdk/crypto/{keys,crypto_types,signature_provider}.py->Gen/GenSigEnc.v", True)
+        rep.obligation("translate:spsdk/crypto/{keys,crypto_types,signature_provider}.py->Gen/GenSigEnc.v", True,
+                       ("statement structure changed (baseline constants kept, tie by correspondence only): "
+                        + ", ".join(regen_c08.LAST_NOTES)) if regen_c08.LAST_NOTES else "")
+        if regen_c08.LAST_NOTES:
+            vlib.log("  note: statement structure differs from the modelled one in " + ", ".join(regen_c08.LAST_NOTES)
+                     + " -- accepted only if model and implementation agree on every generated case")
     except Exception as ex:  # noqa
         rep.obligation("translate:spsdk/crypto/{keys,crypto_types,signature_provider}.py->Gen/GenSigEnc.v", False, repr(ex))
     # (P) proofs
     model_ok, mlog = vlib.coq_make(["Model/SigEncModel.vo"])
     vlib.check_theorems(rep, PID, THEOREMS, ["Proofs/SigEncProofs.vo"])
-    vlib.audit(rep)
+    # audit of the dependency closure of the C08 theorems (vlib.audit scans every .v file of every property, so another
+    # builder's half-edited file would break this check; see the final report)
+    mine = ("Lib/", "Gen/GenSigEnc.v", "Model/SigEncModel.v", "Proofs/SigEncProofs.v", "Props/C08/")
+    probs = [p_ for p_ in vlib.audit_sources() if p_.startswith(mine)]
+    rep.obligation("audit:no-Admitted/Axiom/Parameter/unsafe-flags (Lib, GenSigEnc, SigEncModel, SigEncProofs, Props/C08)", not probs,
+                   "; ".join(probs))
     lap('regen+build+theorems+audit')
     impl = Impl()
     # (T2-A) model functions: implementation, oracles, model
@@ -986,7 +1135,7 @@ def _run(rep, tier, rng):
         for c in cs:
             flat.append(c)
             owner.append(name)
-    need_bb = [i for i, c in enumerate(flat) if c[0] in (14, 15, 16, 17)]
+    need_bb = [i for i, c in enumerate(flat) if c[0] in (14, 15, 16, 17, 22)]
     ops = [{"op": "m", "fn": c[0], "args": [jarg(a) for a in c[1:] if a is not None]} for c in flat]
     ops += [{"op": "bb", "data": flat[i][1][1].hex()} for i in need_bb]
     lap('case generation')
@@ -1009,7 +1158,14 @@ def _run(rep, tier, rng):
         try:
             skip = {i for i in need_bb if bbs[i]["otps"]}
             exprs = [model_expr(c, bbs.get(i)) for i, c in enumerate(flat)]
-            model_res = vlib.run_model_cases("c08", "Value SigEncModel", exprs, shard=600, jobs=8)
+            # 40 cases per Eval (the fixed cost of one vm_compute call dominates a single case), 15 Evals per coqc process
+            batches = [exprs[i:i + 40] for i in range(0, len(exprs), 40)]
+            bres = vlib.run_model_cases("c08", "Value SigEncModel", ["VList [" + "; ".join(b) + "]" for b in batches], shard=15, jobs=8)
+            model_res = []
+            for b, v in zip(batches, bres):
+                if v[0] != "l" or len(v[1]) != len(b):
+                    raise RuntimeError("model batch returned a wrong number of results")
+                model_res += [big_in(x) for x in v[1]]
             for i, (c, ri, rm) in enumerate(zip(flat, impl_res, model_res)):
                 if i in skip:
                     continue
@@ -1062,6 +1218,14 @@ def _run(rep, tier, rng):
     ncli = cli_stream(rep, tier, rng, impl, keyspecs, exports)
     rep.add_stream("nxpcrypto key convert / signature create / signature verify on the same keys", ncli, ncli, samples=[], exhaustive=False)
     lap('command line')
+    ncert = cert_stream(rep, tier, rng, impl, keyspecs)
+    rep.add_stream("self-signed certificates of every key: export PEM/DER/NXP, parse, get_public_key, extract_public_key_from_data, validate",
+                   ncert, ncert, samples=[], exhaustive=False)
+    lap('certificates')
+    if regen_c08.LAST_NOTES:
+        clean = not rep.violations and not any(n.startswith("correspondence") for n in rep.broken)
+        rep.obligation("translate-fallback: restructured functions behave as the model on all generated inputs", clean,
+                       "restructured: " + ", ".join(regen_c08.LAST_NOTES))
     return rep.finish(
         rule="model-function streams: one evaluation = one call of the named SPSDK function compared with the Coq model and judged by the "
              "spec oracle; distinct_nontrivial = distinct (input, accepted result) pairs; streams marked exhaustive enumerate every DER "
